@@ -123,7 +123,9 @@ func (w *vWorld) drainAll() {
 }
 
 // isType compares by enum number: core and module message enums share one number space.
-func isType(m hwebsocket.Msg, t hagallpb.MsgType) bool { return m.Type != nil && int32(m.Type.Number()) == int32(t) }
+func isType(m hwebsocket.Msg, t hagallpb.MsgType) bool {
+	return m.Type != nil && int32(m.Type.Number()) == int32(t)
+}
 
 // join sends a join request for session id sid ("" = create) and records the answer.
 // It returns the messages the joiner received.
